@@ -366,6 +366,50 @@ pub fn classify(ev: &Ev, cx: &mut Cx) -> node::Shape {
 // ---------------------------------------------------------------------------------------------
 // panics
 
+thread_local! {
+    static PANIC_INFO: std::cell::RefCell<Option<(String, String)>> = const { std::cell::RefCell::new(None) };
+    static IN_CATCH: std::cell::Cell<bool> = const { std::cell::Cell::new(false) };
+}
+/// set by entry points that run without `vcore::run` (fuzz target, `show`): caught panics stay silent
+pub static QUIET_CAUGHT_PANICS: std::sync::atomic::AtomicBool = std::sync::atomic::AtomicBool::new(false);
+
+fn ensure_hook() {
+    static ONCE: std::sync::Once = std::sync::Once::new();
+    ONCE.call_once(|| {
+        let prev = std::panic::take_hook();
+        std::panic::set_hook(Box::new(move |info| {
+            let loc = info.location().map(|l| format!("{}:{}", l.file(), l.line())).unwrap_or_default();
+            let msg = if let Some(s) = info.payload().downcast_ref::<&str>() {
+                s.to_string()
+            } else if let Some(s) = info.payload().downcast_ref::<String>() {
+                s.clone()
+            } else {
+                "<non-string panic>".to_string()
+            };
+            PANIC_INFO.with(|p| *p.borrow_mut() = Some((loc, msg)));
+            let quiet = IN_CATCH.with(|c| c.get()) && QUIET_CAUGHT_PANICS.load(std::sync::atomic::Ordering::Relaxed);
+            if !quiet {
+                // vcore's hook when running under `vcore::run`, the default hook otherwise
+                prev(info);
+            }
+        }));
+    });
+}
+
+/// Like `vcore::catch`, but independent of whether `vcore::run` installed its panic hook (the fuzz
+/// target and `show` run without it): the panic site is always known, so D10 keeps its signature.
+pub fn catch_emit<R>(f: impl FnOnce() -> R) -> Result<R, Fail> {
+    ensure_hook();
+    PANIC_INFO.with(|p| *p.borrow_mut() = None);
+    IN_CATCH.with(|c| c.set(true));
+    let r = std::panic::catch_unwind(std::panic::AssertUnwindSafe(f));
+    IN_CATCH.with(|c| c.set(false));
+    r.map_err(|_| {
+        let (loc, msg) = PANIC_INFO.with(|p| p.borrow_mut().take()).unwrap_or_default();
+        Fail { sig: vcore::panic_sig(&loc, &msg), msg: format!("panicked at {loc}: {msg}") }
+    })
+}
+
 fn emit_panic_sig(sink: &str, shape: &node::Shape, p: &Fail) -> String {
     if p.msg.contains("data/any_value.rs") && p.msg.contains("not yet implemented") {
         if shape.composite_key {
@@ -997,7 +1041,7 @@ pub fn check_event(ev: &Ev, cx: &mut Cx, sinks_on: Sinks) -> Res {
             // ---- emit (the calling thread is this one: a panic here is a panic in the caller)
             let mut file_ok = false;
             if sinks_on.file {
-                match vcore::catch(|| ev.with_event(|e| pl.file.emit(e))) {
+                match catch_emit(|| ev.with_event(|e| pl.file.emit(e))) {
                     Ok(()) => file_ok = true,
                     Err(p) => cx.fail(emit_panic_sig("file", &shape, &p), format!("emit_file panicked on the emitting thread: {}", p.msg))?,
                 }
@@ -1010,7 +1054,7 @@ pub fn check_event(ev: &Ev, cx: &mut Cx, sinks_on: Sinks) -> Res {
                 let ems = [&pl.full_proto, &pl.full_json, &pl.logs_proto, &pl.logs_json];
                 let names = ["otlp(all signals, protobuf)", "otlp(all signals, json)", "otlp(logs, protobuf)", "otlp(logs, json)"];
                 for (i, em) in ems.iter().enumerate() {
-                    match vcore::catch(|| ev.with_event(|e| em.emit(e))) {
+                    match catch_emit(|| ev.with_event(|e| em.emit(e))) {
                         Ok(()) => emitted[i] = true,
                         Err(p) => cx.fail(emit_panic_sig("otlp", &shape, &p), format!("{} panicked on the emitting thread: {}", names[i], p.msg))?,
                     }
